@@ -1,5 +1,5 @@
 import MpVerif.C10.Lemmas
-import MpVerif.Gen.StatusReport
+import MpVerif.C10.ModelGen
 /-!
 # C10 — solve-result codes are classified and reported as documented
 
@@ -173,14 +173,41 @@ theorem C10_predicate_inclusions (c : Int) :
 
 /-! ## 4. What is reported -/
 
-/-- the hand model of `ReportSolution2AMPL` agrees with the guard structure extracted from the source -/
+/-- the hand model `report` equals `reportGen`, which consists only of definitions regenerated from the source:
+    objective guard, code through all forwarding hops down to the `objno` line, the pointer arguments of
+    `HandleSolution` after `FlatBackend::GetSolution`, the guard of `obj_value`, codes of the numbered files -/
 theorem C10_report_model_eq_generated (a : Answer) : report a = reportGen a := by
   unfold report reportGen
   have h : objectiveWritten a = (isProblemSolvedOrFeasible a.code && decide (a.nObj > 0)) := by
     unfold objectiveWritten
     cases isProblemSolvedOrFeasible a.code <;> by_cases h0 : a.nObj = 0 <;> by_cases h1 : a.nObj > 1 <;>
       simp [h0, h1] <;> omega
-  rw [h]; rfl
+  have hv : Gen.StatusReport.handleObjValuePassed a = (isProblemSolvedOrFeasible a.code && decide (a.nObj = 1)) := by
+    unfold Gen.StatusReport.handleObjValuePassed Gen.StatusReport.objValueSetGuard
+    cases isProblemSolvedOrFeasible a.code <;> by_cases h0 : a.nObj = 0 <;> by_cases h1 : a.nObj > 1 <;>
+      simp [h0, h1] <;> omega
+  have hp : Gen.StatusReport.handlePrimalPassed a = a.hasPrimal := by
+    unfold Gen.StatusReport.handlePrimalPassed Gen.StatusReport.solPrimalNonEmpty; cases a.hasPrimal <;> rfl
+  have hd : Gen.StatusReport.handleDualPassed a = a.hasDual := by
+    unfold Gen.StatusReport.handleDualPassed Gen.StatusReport.solDualNonEmpty; cases a.hasDual <;> rfl
+  rw [h, hv, hp, hd]; rfl
+
+/-- the hand model `extras` equals `extrasGen` (all six guards regenerated from the source) -/
+theorem C10_extras_eq_generated (a : Answer) : extras a = extrasGen a := by
+  unfold extras extrasGen
+  have hf : Gen.StatusReport.feasrelaxWordGuard a = (isProblemSolvedOrFeasible a.code && decide (a.nObj = 1) && a.feasrelax) := by
+    unfold Gen.StatusReport.feasrelaxWordGuard
+    cases isProblemSolvedOrFeasible a.code <;> by_cases h0 : a.nObj = 0 <;> by_cases h1 : a.nObj > 1 <;>
+      simp [h0, h1] <;> omega
+  have ho : Gen.StatusReport.origObjGuard a = (isProblemSolvedOrFeasible a.code && decide (a.nObj = 1) && a.origObj) := by
+    unfold Gen.StatusReport.origObjGuard
+    cases isProblemSolvedOrFeasible a.code <;> by_cases h0 : a.nObj = 0 <;> by_cases h1 : a.nObj > 1 <;>
+      simp [h0, h1] <;> omega
+  rw [hf, ho]; rfl
+
+/-- every place where the reporting code consults a status predicate is one the model accounts for
+    (a new use site, or one that disappears, breaks this) -/
+theorem C10_gen_predicate_use_sites : Gen.StatusReport.predicateUseSites = predicateUseSites := by decide
 
 /-- the code written to the `.sol` file is the code the backend reported -/
 theorem C10_code_echo (a : Answer) : (report a).codeWritten = a.code := rfl
@@ -200,9 +227,16 @@ theorem C10_alt_files_count (a : Answer) :
   unfold report
   by_cases h : a.solStub = true <;> simp [h]
 
-/-- the same through the generated forwarding chain (BackendWithModelManager → model manager → writer) -/
-theorem C10_chain_forwards_code (a : Answer) : finalCodeWritten a = a.code ∧ altCodeWritten a = a.code := by
-  constructor <;> c10_unfold_gen
+/-- the same through the generated forwarding chain (BackendWithModelManager → model manager → AppSolutionHandler →
+    SolutionWriter → SolutionAdapter → `objno N <status>`), for the final file and for the numbered files -/
+theorem C10_chain_forwards_code (a : Answer) :
+    finalCodeWritten a = a.code ∧ altCodeWritten a = a.code ∧
+    Gen.StatusReport.solFileCodeFinal a = a.code ∧ Gen.StatusReport.solFileCodeAlt a = a.code := by
+  refine ⟨?_, ?_, ?_, ?_⟩
+  · c10_unfold_gen
+  · c10_unfold_gen
+  · simp only [Gen.StatusReport.solFileCodeFinal, Gen.StatusReport.hopWriterFinal, Gen.StatusReport.hopAppHandler]; c10_unfold_gen
+  · simp only [Gen.StatusReport.solFileCodeAlt, Gen.StatusReport.hopWriterFeasible]; c10_unfold_gen
 
 /-- the code clause stated directly about the definitions regenerated from the source: first argument of
     `HandleSolution` / `HandleFeasibleSolution` pushed through the generated forwarding hops -/
@@ -216,9 +250,16 @@ theorem C10_code_echo_generated (a : Answer) :
 example : (report { code := 402, nObj := 1, hasPrimal := true, hasDual := true, nAlt := 2, solStub := true }).altCodes = [402, 402] := by decide
 example : (report { code := -7, nObj := 0, hasPrimal := false, hasDual := false, nAlt := 3, solStub := false }).altCodes = [] := by decide
 
-/-- primal / dual vectors are passed on exactly when the solver returned them -/
+/-- primal / dual vectors are passed on exactly when the solver returned them — stated about the generated steps:
+    `FlatBackend::GetSolution` empties the postsolved vector iff the solver returned none, and `HandleSolution`
+    receives a null pointer iff that vector is empty -/
 theorem C10_vectors_echo (a : Answer) :
-    (report a).primalPassed = a.hasPrimal ∧ (report a).dualPassed = a.hasDual := ⟨rfl, rfl⟩
+    (reportGen a).primalPassed = a.hasPrimal ∧ (reportGen a).dualPassed = a.hasDual ∧
+    (report a).primalPassed = a.hasPrimal ∧ (report a).dualPassed = a.hasDual := by
+  have h := C10_report_model_eq_generated a
+  refine ⟨?_, ?_, rfl, rfl⟩
+  · rw [← h]; rfl
+  · rw [← h]; rfl
 
 /-- **the objective value appears exactly when a solution candidate is indicated** (and a value exists) -/
 theorem C10_objective_iff (a : Answer) :
@@ -273,6 +314,16 @@ theorem C10_iis_suffix_iff (a : Answer) :
   unfold extras
   simp only [Bool.and_eq_true, Bool.or_eq_true, C10_infOrUnb_iff a.code, C10_indiffInfOrUnb_iff a.code, or_assoc, or_self]
 
+/-- the automatic solution check is skipped exactly for infeasible codes (200–299): a violating solution is reported
+    with a warning for every other code -/
+theorem C10_solcheck_warning_iff (a : Answer) :
+    (extras a).solCheckWarning = true ↔ (a.solViolates = true ∧ documented a.code ≠ .infeasible) := by
+  unfold extras
+  have h := C10_infeasible_iff a.code
+  cases hv : a.solViolates <;> cases hi : isProblemInfeasible a.code <;> simp [hv, hi] at h ⊢ <;> exact h
+example : (extras { code := 402, nObj := 1, hasPrimal := true, hasDual := true, solViolates := true }).solCheckWarning = true ∧
+          (extras { code := 202, nObj := 1, hasPrimal := true, hasDual := true, solViolates := true }).solCheckWarning = false := by decide
+
 -- instances (true / false side of each `↔`)
 example : (extras { code := 401, nObj := 1, hasPrimal := true, hasDual := true, feasrelax := true, origObj := true }).feasrelaxShown = true := by decide
 example : (extras { code := 401, nObj := 2, hasPrimal := true, hasDual := true, feasrelax := true }).feasrelaxShown = false := by decide
@@ -306,6 +357,14 @@ theorem C10_gen_suffix_guards (a : Answer) :
 theorem C10_gen_steps :
     Gen.StatusReport.stepsReportResults = stepsReportResults ∧ Gen.StatusReport.stepsReportSolution = stepsReportSolution ∧
     Gen.StatusReport.stepsReportSuffixes = stepsReportSuffixes := by decide
+
+/-- the MIP layer reports its suffixes after the standard ones, rays and IIS unconditionally (their own guards decide);
+    a backend that never calls `SetStatus` has the code `NOT_SET` = −200, which no predicate classifies -/
+theorem C10_gen_mip_steps_and_initial_status :
+    Gen.StatusReport.stepsMIPStandardSuffixes = ["ReportStandardSuffixes", "ReportStandardMIPSuffixes"] ∧
+    Gen.StatusReport.stepsMIPSuffixes = ["ReportRays", "CalculateAndReportIIS"] ∧
+    Gen.StatusReport.initialStatus = -200 ∧ isSolStatusRetrieved Gen.StatusReport.initialStatus = false ∧
+    documented Gen.StatusReport.initialStatus = .unclassified := by decide
 
 /-- `StdBackend` declares exactly the status predicates that are translated (none is outside the model) -/
 theorem C10_gen_predicate_set :
